@@ -314,7 +314,21 @@ def evaluate(case):
     fps_before = twin_fps if twin_fps is not None else _schema_fps(objs, w)
     cfg_before = fp.config_state()
     fns = [objs.call(i) for i in range(n)]
-    r = sched.Sched(fns, schedule, probe=objs.probe, lines=bool(case.get("lines"))).run()
+    # the interpreter-wide warnings filters are shared state as well: a known, recognisable list while the calls run
+    import re as _re
+    import warnings
+
+    saved_filters = warnings.filters[:]
+    sentinel = [("ignore", _re.compile("c07-sentinel-a"), Warning, None, 0), ("ignore", None, Warning, None, 0),
+                ("ignore", _re.compile("c07-sentinel-b"), Warning, None, 0)]
+    warnings.filters[:] = sentinel
+    warnings._filters_mutated()
+    try:
+        r = sched.Sched(fns, schedule, probe=objs.probe, lines=bool(case.get("lines"))).run()
+        filters_after = warnings.filters[:]
+    finally:
+        warnings.filters[:] = saved_filters
+        warnings._filters_mutated()
     cfg_after = fp.config_state()
     _reset_config()
     if r.status == "deadlock":
@@ -360,6 +374,11 @@ def evaluate(case):
             changed.append("GLOBAL")
         ev.add("config-leak:" + "+".join(changed), {"before": cfg_before, "after": cfg_after,
                                                     "preemptions": r.preemptions[:6]})
+
+    # (2b) warnings filters as before
+    if filters_after != sentinel:
+        ev.add("warnings-filters-leak", {"before": [str(f[:2]) for f in sentinel], "after": [str(f[:2]) for f in filters_after][:6],
+                                         "preemptions": r.preemptions[:6]})
 
     # (3) every schema as before
     try:
